@@ -138,6 +138,17 @@ fn verif_n3_unary() {
     }
 }
 
+/// the precondition of the proved inc_of / prod_inc_of contracts (unit u4_expr): at most one part
+/// is the plain variable `v`
+fn one_single<C: CellType>(e: &Expr<C>) -> bool {
+    for v in [0isize, 1] {
+        if e.parts.iter().filter(|p| p.vars.len() == 1 && p.vars[0] == v).count() > 1 {
+            return false;
+        }
+    }
+    true
+}
+
 fn binary<C: CellType>(tm: &mut Tally, ta: &mut Tally, w: &str) {
     let fam = family::<C>();
     let vals = cells::<C>();
@@ -148,6 +159,8 @@ fn binary<C: CellType>(tm: &mut Tally, ta: &mut Tally, w: &str) {
             }
             let m = p.mul(q);
             let s = p.add(q);
+            tm.check(one_single(&m) && one_single(&m.clone().normalize()), || format!("{} ({:?}).mul({:?}) = {:?}: two parts are the same plain variable", w, p, q, m));
+            ta.check(one_single(&s) && one_single(&s.clone().normalize()), || format!("{} ({:?}).add({:?}) = {:?}: two parts are the same plain variable", w, p, q, s));
             for &a in &vals {
                 for &b in &vals {
                     tm.check(ev(&m, a, b) == ev(p, a, b).wrapping_mul(ev(q, a, b)), || format!("{} ({:?}).mul({:?}) = {:?} at [0]={:?} [1]={:?}", w, p, q, m, a, b));
@@ -181,7 +194,10 @@ fn subst<C: CellType>(t: &mut Tally, w: &str) {
             for s1 in &subs {
                 let r = e.symb_evaluate(|v| if v == 0 { Some(s0.clone()) } else if v == 1 { Some(s1.clone()) } else { None });
                 let r = match r {
-                    Some(r) => r,
+                    Some(r) => {
+                        t.check(one_single(&r), || format!("{} {:?} with [0]:={:?}, [1]:={:?} gives {:?}: two parts are the same plain variable", w, e, s0, s1, r));
+                        r
+                    }
                     None => {
                         t.check(false, || format!("{} symb_evaluate returned None for {:?}", w, e));
                         continue;
